@@ -11,6 +11,9 @@ PROP = {'rule': 'rapid-generated cases. history: rapid state machine over one no
                  'RDMA/FPGA report their single resource',
                  'requests are PreFilter-valid (ValidateDeviceRequest) and carry no device hints, joint-allocation, selectors, VF requests, '
                  'GPU partition tables or required topology scope; no reservations / preemption',
+                 'a GPU memory request is charged in both views (bytes and ratio) at commit although only the requested view is compared by '
+                 'the allocator; completeness (refusal => not enough devices) therefore counts a GPU as able to serve a request only if the '
+                 'unrequested view fits too (rounded up), validity (success => free >= request) uses the requested view only',
                  'events for one pod carry the allocation that was committed for it (Reserve result == annotation written by PreBind); '
                  'pod names are never reused',
                  "'used <= total' is asserted everywhere only while the history contains no refresh that takes capacity away (device "
@@ -20,8 +23,8 @@ PROP = {'rule': 'rapid-generated cases. history: rapid state machine over one no
  'units': [{'name': 'deviceshare',
             'pkg': 'pkg/scheduler/plugins/deviceshare',
             'files': ['C07/c07_device_test.go'],
-            'tests': [{'run': 'TestVerifC07History', 'quick': 1500, 'thorough': 6000, 'steps': 30},
-                      {'run': 'TestVerifC07Allocate', 'quick': 6000, 'thorough': 40000}]}],
+            'tests': [{'run': 'TestVerifC07History', 'quick': 2000, 'thorough': 8000, 'steps': 30},
+                      {'run': 'TestVerifC07Allocate', 'quick': 8000, 'thorough': 50000}]}],
  'manifest': {'technique': 'property-based testing (rapid): model-based state machine over the device cache with a ledger oracle after every '
                            'step, plus generated (inventory, usage, request) triples with a validity + completeness oracle for single allocations',
               'text': 'Generated-history search: allocate (real AutopilotAllocator/GPUAllocator, both the direct and the nodeDevice.filter path) + '
